@@ -1,4 +1,15 @@
-"""C07 — a returned shortest path is a real, optimal, geometrically continuous route (tracklib/core/network.py)."""
+"""C07 — a returned shortest path is a real, optimal, geometrically continuous route (tracklib/core/network.py).
+
+Every case is a SESSION on one `Network` object: a graph with node positions and edge polylines, how it is built
+(`ids`, `build`, `af`), and a sequence of calls (`ops`):
+    ["P", s, t, cut, d]   shortest_path(s, t, cut[, output_dict])
+    ["D", s, t|"-", cut, d]   shortest_distance(s, t | None, cut[, output_dict])
+    ["F", s, t|"-", cut, d]   run_routing_forward(s, t | None, cut[, output_dict])
+    ["B", t]              run_routing_backward(t) on the flags left by the last search
+A node argument is "3" (the id), "o3" (the network's Node object) or "f3" (a fresh Node object with that id);
+`d` = 1: the session's output_dict is passed. Cases without "ops" query every ordered pair with `shortest_path`
+(s-major) on the same object; "seq": "euler" = a sequence of `shortest_path` calls in which every ordered pair of
+queries occurs consecutively."""
 import itertools
 from fractions import Fraction
 from engine import Prop
@@ -31,6 +42,194 @@ def optimal_walks(n, edges, d, s, t, cap=2):
     return count
 
 
+def de_bruijn_pairs(q):
+    """a sequence over range(q) of length q*q+1 in which every ordered pair (a, b) occurs consecutively exactly once
+    (Eulerian circuit of the complete digraph with loops)"""
+    nxt = [0] * q
+    stack = [0]
+    circuit = []
+    while stack:
+        v = stack[-1]
+        if nxt[v] < q:
+            w = nxt[v]
+            nxt[v] += 1
+            stack.append(w)
+        else:
+            circuit.append(stack.pop())
+    return circuit[::-1]
+
+
+def idx(a):
+    return int(a.lstrip("of"))
+
+
+def ops_of(case):
+    if "ops" in case:
+        return case["ops"]
+    n = case["n"]
+    cut = case.get("cut", "none")
+    pairs = [(s, t) for s in range(n) for t in range(n)]
+    if case.get("seq") == "euler":
+        pairs = [pairs[k] for k in de_bruijn_pairs(len(pairs))]
+    return [["P", str(s), str(t), cut, 0] for (s, t) in pairs]
+
+
+def eff_order(case):
+    """node insertion order of the network as built (the nodes are created by addEdge in the lazy mode)"""
+    if case.get("build") != "lazy":
+        return list(case["order"])
+    out = []
+    for (_, s, t, _, _) in nc.expand(case):
+        for v in (s, t):
+            if v not in out:
+                out.append(v)
+    return out + [v for v in case["order"] if v not in out]
+
+
+def build_net(mods, case):
+    """the real Network of a case.
+    ids:   "int" node ids 0..n-1, edge ids as given | "str" node ids 'A','B',… (same order), edge ids 'e<id>'
+    build: "plain" every node added first (in `order`), the same Node objects given to addEdge |
+           "fresh" as plain, but addEdge is given fresh Node objects with the same ids (what NetworkReader does) |
+           "lazy"  nodes are created by addEdge, the isolated ones are added afterwards
+    af:    every edge geometry with at least one vertex carries an analytical feature"""
+    Network, Node, Edge, Track, Obs, ENUCoords, ObsTime = mods
+    strids = case.get("ids", "int") == "str"
+    nid = (lambda v: chr(65 + v)) if strids else (lambda v: v)
+    eid = (lambda i: "e%d" % i) if strids else (lambda i: i)
+    build = case.get("build", "plain")
+    pos = case["pos"]
+    mk = lambda v: Node(nid(v), ENUCoords(pos[v][0], pos[v][1], 0))
+    net = Network()
+    nodes = {}
+    if build != "lazy":
+        for v in case["order"]:
+            nodes[v] = mk(v)
+            net.addNode(nodes[v])
+    for k, (i, s, t, w, o) in enumerate(nc.expand(case)):
+        tr = Track([Obs(ENUCoords(x, y, 0), ObsTime()) for (x, y) in case["lines"][k]])
+        if case.get("af") and len(case["lines"][k]) > 0:
+            tr.createAnalyticalFeature("speed", 1.0)
+        e = Edge(eid(i), tr)
+        e.orientation = o
+        e.weight = nc.pynum(w)
+        if build == "plain":
+            net.addEdge(e, nodes[s], nodes[t])
+        else:
+            net.addEdge(e, mk(s), mk(t))
+    if build == "lazy":
+        for v in case["order"]:
+            net.addNode(mk(v))
+    return net, nid, eid, mk
+
+
+# ------------------------------------------------------------------------------------ geometry
+def geometry_ext(rng, n, edges, box=3, loose=False):
+    """node positions on the integer lattice (some coincide); per edge a polyline from its source's position to its
+    target's with 1-5 vertices: straight, bent, with repeated consecutive vertices, coming back over an end point or
+    passing over another node's position, closed loops. loose: the polylines ignore the node positions (0-4 vertices)."""
+    pos = []
+    for v in range(n):
+        if pos and rng.random() < 0.2:
+            pos.append(list(rng.choice(pos)))
+        else:
+            pos.append([rng.randint(0, box), rng.randint(0, box)])
+    pt_ = lambda: [rng.randint(-1, box + 1), rng.randint(-1, box + 1)]
+    lines = []
+    for (_, s, t, _, _) in edges:
+        if loose:
+            lines.append([pt_() for _ in range(rng.choice([0, 1, 2, 2, 3, 4]))])
+            continue
+        ps, pt = list(pos[s]), list(pos[t])
+        r = rng.random()
+        if ps == pt and r < 0.3:
+            l = [ps]
+        elif r < 0.45:
+            l = [ps, pt]
+        elif r < 0.6:
+            l = [ps, pt_(), pt]
+        elif r < 0.7:
+            l = [ps, pt_(), pt_(), pt]
+        elif r < 0.8:                    # a repeated consecutive vertex
+            l = rng.choice([[ps, ps, pt], [ps, pt, pt], [ps, ps, pt, pt]])
+            if rng.random() < 0.5:
+                m = pt_()
+                l = [ps, m, m, pt]
+        elif r < 0.9:                    # comes back over an end point / passes over a node
+            m = pt_()
+            l = rng.choice([[ps, m, ps, pt], [ps, pt, m, pt], [ps, list(rng.choice(pos)), pt], [ps, pt, ps, pt]])
+        else:
+            m = pt_()
+            l = [ps, m, pt_(), m, pt]
+        lines.append([list(p) for p in l])
+    return pos, lines
+
+
+def add_parallels(rng, g):
+    """parallel edges of EQUAL weight (same ends, possibly stored the other way round with the mirrored orientation)"""
+    edges = g["edges"]
+    if not edges:
+        return g
+    used = {e[0] for e in edges}
+    for _ in range(rng.randint(1, 3)):
+        i, s, t, w, o = rng.choice(edges)
+        j = max(used) + 1 + rng.randrange(3)
+        used.add(j)
+        if rng.random() < 0.5:
+            s, t, o = t, s, -o
+        edges.insert(rng.randrange(len(edges) + 1), [j, s, t, w, o])
+    return g
+
+
+def random_ops(rng, n, d):
+    """a sequence of calls: single queries, the same query twice, a path after a distance-only search and vice versa,
+    backward passes for several targets after one search, an unreachable target after a reachable one, source = target,
+    cut-offs below / at / above distances"""
+    cuts = [nc.tok(c) for c in nc.cuts_for(d) if c >= 0] or ["0"]
+    form = lambda v: rng.choice(["", "", "", "o", "f"]) + str(v)
+    cut = lambda: "none" if rng.random() < 0.55 else rng.choice(cuts)
+    ud = lambda: 1 if rng.random() < 0.3 else 0
+    node = lambda: rng.randrange(n)
+    reach = [(s, t) for s in range(n) for t in range(n) if s != t and d[s][t] is not None]
+    unreach = [(s, t) for s in range(n) for t in range(n) if d[s][t] is None]
+    ops = []
+    for _ in range(rng.randint(2, 6)):
+        r = rng.random()
+        s, t = node(), node()
+        if reach and rng.random() < 0.6:
+            s, t = rng.choice(reach)
+        if r < 0.25:
+            ops.append(["P", form(s), form(t), cut(), ud()])
+        elif r < 0.35:                                    # the same query by both entry points
+            c, u = cut(), ud()
+            pair = [["P", form(s), form(t), c, u], ["D", form(s), form(t), c, u]]
+            rng.shuffle(pair)
+            ops += pair
+        elif r < 0.5:                                     # distance-only search, then paths to several targets
+            ops.append(rng.choice([["D", form(s), "-", cut(), ud()], ["F", form(s), "-", cut(), ud()],
+                                   ["F", form(s), form(t), cut(), ud()], ["D", form(s), form(t), cut(), ud()]]))
+            for _ in range(rng.randint(1, 3)):
+                ops.append(["B", form(rng.choice([t, node(), node()]))])
+        elif r < 0.6 and unreach:                         # an unreachable target after a reachable one (and back)
+            s2, t2 = rng.choice(unreach)
+            ops.append(["P", form(s), form(t), cut(), ud()])
+            ops.append(["P", form(rng.choice([s2, s])), form(t2), cut(), ud()])
+            ops.append(["B", form(t)])
+        elif r < 0.7:                                     # source = target
+            ops.append(["P", form(s), form(s), cut(), ud()])
+            ops.append(["B", form(t)])
+        elif r < 0.8 and d[s][t] is not None:             # cut-off just below / at the true distance
+            c = d[s][t] - rng.choice([Fraction(1, 2), 0, Fraction(1, 2), 1])
+            ops.append(["P", form(s), form(t), nc.tok(max(c, 0)), ud()])
+            ops.append(["B", form(node())])
+        elif r < 0.9:
+            ops.append(["P", form(s), form(t), "none", 0])
+            ops.append(["P", form(t), form(s), "none", 0])
+        else:
+            ops.append(["B", form(t)])
+    return ops
+
+
 class P(Prop):
     id = "C07"
     design_ref = "DESIGN.md section 5, C07"
@@ -40,35 +239,67 @@ class P(Prop):
         (M, "TV.C07.path_is_walk", "any path returned by shortest_path(s,t,cut): node list from s to t, consecutive nodes joined by the recorded edge in a permitted direction; geometry = chain of those edges' polylines along the travel, junctions once, ending at pos t; weights sum to the label of t"),
         (M, "TV.C07.path_optimal", "for shortest_path(s,t) the recorded edges' weights sum to the true shortest distance"),
         (M, "TV.C07.path_optimal_cut", "with a cut-off not below the true distance the returned path still realises the true distance"),
+        (M, "TV.C07.path_cut_sound", "with ANY cut-off (also below the true distance) a returned path is a real route with chained geometry whose weights sum to the value shortest_distance(s,t,cut) reports; that value is >= the true distance and equal to it unless it exceeds the cut-off"),
         (M, "TV.C07.geometry_chained", "if every edge polyline runs from its source's to its target's position, the returned geometry = pos s followed by the used edges' polylines, each oriented along the travel and without its first vertex (junctions once); starts at pos s, ends at pos t"),
         (M, "TV.C07.unreachable_none", "no permitted walk => None; t = s => None (as coded)"),
         (M, "TV.C07.reachable_path", "a reachable target other than the source always gets a path"),
         (M, "TV.C07.never_diverges", "the loop `while node.antecedent != \"\"` always terminates (within n+1 iterations) on the flags left by the forward pass"),
+        (M, "TV.C07.track_operators_agree", "run_routing_backward written on tracks with the C04 model's operators (Track(), addObs, copy, reverse, `>` = Seq.dropFirst, `+` = Seq.concat) returns the list-level model's node list and points, as a track without analytical features (uses TV.C04.concat_spec / dropFirst_spec)"),
+        (M, "TV.C07.geometry_chained_track", "T3 for the Track built by the C04 operators: points = pos s followed by the used edges' polylines along the travel, each minus its first vertex; starts at pos s, ends at pos t; no analytical feature — for arbitrary polylines (repeated vertices, 1/2-vertex geometries, SENS_INVERSE, parallel edges)"),
+        (M, "TV.C07.path_optimal_track", "through the C04 operators: never diverges; None iff unreachable or t = s; a returned track is the chain of a route whose weights sum to the true distance"),
+        (M, "TV.C07.session_path_fresh", "shortest_path at any point of a sequence of calls on one Network = shortest_path on a fresh network (flags reset; node by id or object; output_dict or not), and the label left on the target is shortest_distance's value"),
+        (M, "TV.C07.session_dist_fresh", "shortest_distance(s,t,cut) at any point of a session = on a fresh network"),
+        (M, "TV.C07.session_path_dist_same_state", "shortest_path and shortest_distance with the same arguments leave the same node flags and write the same output_dict entries"),
+        (M, "TV.C07.session_outputs_ok", "in ANY sequence of shortest_path / shortest_distance / run_routing_forward / run_routing_backward calls on one network, the backward loop terminates and every returned track is the chain of a real route whose weights sum to the label of its last node"),
+        (M, "TV.C07.backward_after_full_search", "after a search without target and cut-off (shortest_distance(s) / run_routing_forward(s)), run_routing_backward(t) = None iff t unreachable or t = s, else a route s->t realising the true distance"),
     ]
     partial = []
-    open_statements = ["Track.copy/reverse/__gt__/__add__ are modelled as list operations on the vertex list (not proved about track.py)",
-                       "with a cut-off below the true distance shortest_path may return a tentative (non-optimal) path: outside the statement, not checked"]
-    modelled = ("Network.run_routing_forward (as for C06) and run_routing_backward as it is after fix 9d0d428 (walk of antecedent / antecedent_edge, "
-                "polyline reversed when e.source != node, appended minus its first vertex, final reverse, path = node ids reversed), shortest_path; "
-                "Track.copy/reverse/__gt__/__add__ as list operations on the vertex list")
-    trusted = ["Track.copy (deepcopy), Track.reverse, Track.__gt__(int), Track.__add__ are modelled as list copy / reverse / drop / append on the vertices",
-               "priority_dict is modelled as extract-min by (priority, node id)"]
-    rule = ("the C06 graph space (all edge lists of length <= 2 on <= 3 nodes in quick, + all 3-edge multisets in thorough; random to 12 nodes / 40 edges) with random "
-            "node positions on an integer lattice (some coincident) and 1-4-vertex edge polylines from the source's to the target's position; every ordered pair. "
-            "non-trivial = some pair s != t is joined by a walk; tags count zero-weight edges, edges traversed against their stored direction, ties")
+    open_statements = ["Track.copy is modelled as the identity on (points, feature table): the deep copy of the Obs objects (no aliasing between the returned track and the edge geometries) is checked by the harness only through the stability of later answers",
+                       "float rounding of sums of non-dyadic weights is outside the theorems (weights: a linearly ordered additive commutative monoid; the correspondence streams use integers and dyadic rationals, exact in float arithmetic)"]
+    modelled = ("Network.run_routing_forward (as for C06) with __correctInputNode (node by id / Node object) and __resetFlags on the flags left by earlier searches; "
+                "run_routing_backward (walk of antecedent / antecedent_edge, polyline reversed when e.source != node, appended minus its first vertex, final reverse, "
+                "path = node ids reversed) written with the Track operators of the C04 model (Track(), addObs, copy, reverse, `>`, `+` with its feature-name test) "
+                "and proved equal to the list-level walk; shortest_path, shortest_distance (pair and list form), output_dict, and sequences of these calls on one Network object")
+    trusted = ["Track.copy (copy.deepcopy) is the identity on the model's immutable values",
+               "priority_dict is modelled as extract-min by (priority, node id) (C06 proves the explicit heap equal to it)"]
+    rule = ("the C06 graph space (all edge lists of length <= 2 on <= 3 nodes in quick, + all 3-edge multisets in thorough; random to 12 nodes / 40 edges, parallel edges of equal and of "
+            "different weight) with node positions on an integer lattice (some coincident) and edge polylines of 1-5 vertices from the source's to the target's position (straight, bent, repeated "
+            "consecutive vertices, coming back over an end point, over another node, closed loops); a 'loose' stream whose polylines ignore the node positions (0-4 vertices; geometry compared "
+            "with the model only). Networks built with int or str ids, with the caller's Node objects / fresh Node objects per edge (as NetworkReader) / nodes created by addEdge; edge geometries "
+            "with or without an analytical feature. Calls: every ordered pair by shortest_path on ONE object; for the graphs with <= 1 edge (quick) / <= 2 edges (thorough) a sequence in which every ordered pair "
+            "of queries is consecutive; random sessions mixing shortest_path, shortest_distance (pair / list), run_routing_forward, run_routing_backward (several targets after one search, before "
+            "any search), nodes by id / own object / fresh object, output_dict, source = target, unreachable after reachable, cut-offs below / at / above the distances. "
+            "non-trivial = some call returns a path; tags count zero-weight edges, edges traversed against their stored direction, ties, op kinds")
 
     def setup(self):
         self.mods = nc.import_mods()
 
     # ---------------------------------------------------------------- generators
     def exhaustive_scopes(self, tier):
-        s = ["all edge lists (ordered) of length 0..2 on 1..3 nodes, weights {0,1,2}, orientations {-1,0,1} (8067 graphs), one random lattice geometry each, all ordered pairs"]
+        s = ["all edge lists (ordered) of length 0..2 on 1..3 nodes, weights {0,1,2}, orientations {-1,0,1} (8067 graphs), one random lattice geometry each, all ordered pairs by shortest_path on one Network object",
+             "all edge lists of length 0..%d on 1..3 nodes over the same alphabet: a sequence of shortest_path calls on one object in which EVERY ordered pair of queries (s1,t1),(s2,t2) is consecutive" % (1 if tier == "quick" else 2)]
         if tier == "thorough":
             s.append("all multisets of 3 edges on 1..3 nodes over the same alphabet (100482 multigraphs), edge / node insertion order shuffled, one random geometry each")
         return s
 
-    def with_geometry(self, rng, g):
-        pos, lines = nc.random_geometry(rng, g["n"], nc.expand(g))
+    def with_geometry(self, rng, g, ext=False):
+        if ext:
+            loose = rng.random() < 0.12
+            pos, lines = geometry_ext(rng, g["n"], nc.expand(g), loose=loose)
+            if loose:
+                g["loose"] = 1
+            r = rng.random()
+            if r < 0.25:
+                g["ids"] = "str"
+            r = rng.random()
+            if r < 0.25:
+                g["build"] = "fresh"
+            elif r < 0.45:
+                g["build"] = "lazy"
+            if rng.random() < 0.2:
+                g["af"] = 1
+        else:
+            pos, lines = nc.random_geometry(rng, g["n"], nc.expand(g))
         g["pos"] = pos
         g["lines"] = lines
         return g
@@ -80,22 +311,41 @@ class P(Prop):
                 for e in nc.enum_graphs(n, k, ordered=True):
                     order = list(range(n)); rng.shuffle(order)
                     out.append(self.with_geometry(rng, {"kind": "ex", "n": n, "order": order, "e": list(e)}))
+                    if k <= (1 if tier == "quick" else 2):
+                        out.append(self.with_geometry(rng, {"kind": "ex-seq", "seq": "euler", "n": n, "order": order, "e": list(e)}))
         if tier == "thorough":
             for n in (1, 2, 3):
                 for e in nc.enum_graphs(n, 3, ordered=False):
                     e = list(e); rng.shuffle(e)
                     order = list(range(n)); rng.shuffle(order)
                     out.append(self.with_geometry(rng, {"kind": "ex3", "n": n, "order": order, "e": e}))
-        nsmall, nbig = (1500, 400) if tier == "quick" else (20000, 5000)
+        nsmall, nbig, nsess = (1500, 400, 2500) if tier == "quick" else (20000, 5000, 40000)
         for _ in range(nsmall):
-            out.append(self.with_geometry(rng, dict(nc.random_graph(rng, small=True), kind="rnd-small")))
+            g = dict(nc.random_graph(rng, small=True), kind="rnd-small")
+            if rng.random() < 0.3:
+                add_parallels(rng, g)
+            out.append(self.with_geometry(rng, g, ext=True))
         for _ in range(nbig):
             g = nc.random_graph(rng, nmax=rng.choice([5, 8, 12]), emax=rng.choice([8, 20, 40]))
             g["kind"] = "rnd"
             if rng.random() < 0.3:
+                add_parallels(rng, g)
+            if rng.random() < 0.3:
                 allc = nc.cuts_for(nc.floyd_warshall(g["n"], g["edges"]))
                 g["cut"] = nc.tok(rng.choice(allc))
-            out.append(self.with_geometry(rng, g))
+            out.append(self.with_geometry(rng, g, ext=True))
+        for _ in range(nsess):
+            if rng.random() < 0.85:
+                g = nc.random_graph(rng, small=True)
+                if g["n"] == 1 and rng.random() < 0.7:
+                    g = nc.random_graph(rng, nmax=5, emax=8)
+            else:
+                g = nc.random_graph(rng, nmax=rng.choice([5, 8]), emax=rng.choice([8, 16]))
+            g["kind"] = "sess"
+            if rng.random() < 0.3:
+                add_parallels(rng, g)
+            g["ops"] = random_ops(rng, g["n"], nc.floyd_warshall(g["n"], g["edges"]))
+            out.append(self.with_geometry(rng, g, ext=True))
         return out
 
     def describe(self, case):
@@ -103,42 +353,101 @@ class P(Prop):
         n = case["n"]
         d = nc.floyd_warshall(n, edges)
         ties = any(s != t and d[s][t] is not None and optimal_walks(n, edges, d, s, t) > 1 for s in range(n) for t in range(n)) if n <= 4 else "?"
+        ops = ops_of(case)
+        par = len({(min(e[1], e[2]), max(e[1], e[2]), str(e[3])) for e in edges}) < len(edges)
+        rep = any(l[i] == l[i + 1] for l in case["lines"] for i in range(len(l) - 1))
         return {"kind": case["kind"], "n": n if n <= 4 else "5-8" if n <= 8 else "9-12",
                 "m": len(edges) if len(edges) <= 3 else "4-10" if len(edges) <= 10 else "11-40",
                 "zero_weight": any(nc.num(e[3]) == 0 for e in edges), "reverse_only_edge": any(e[4] < 0 for e in edges),
-                "tie": ties, "line_sizes": "".join(sorted({str(len(l)) for l in case["lines"]})), "cut": case.get("cut", "none") != "none"}
+                "tie": ties, "line_sizes": "".join(sorted({str(len(l)) for l in case["lines"]})),
+                "cut": any(o[0] != "B" and o[3] != "none" for o in ops),
+                "ids": case.get("ids", "int"), "build": case.get("build", "plain"), "loose": bool(case.get("loose")), "af": bool(case.get("af")),
+                "parallel_equal_weight": par, "repeated_vertex": rep,
+                "op_kinds": "".join(sorted({o[0] for o in ops})),
+                "node_forms": "".join(sorted({(a[0] if a[0] in "of" else "i") for o in ops for a in o[1:3] if isinstance(a, str) and a not in ("-", "none")})),
+                "nops": len(ops) if len(ops) <= 3 else "4-9" if len(ops) <= 9 else "10-20" if len(ops) <= 20 else ">20"}
 
     def nontrivial(self, case):
         n = case["n"]
         d = nc.floyd_warshall(n, nc.expand(case))
-        return any(d[s][t] is not None for s in range(n) for t in range(n) if s != t)
+        last = None
+        for o in ops_of(case):
+            if o[0] == "B":
+                if last is not None and last != idx(o[1]) and d[last][idx(o[1])] is not None:
+                    return True
+                continue
+            last = idx(o[1])
+            if o[0] == "P" and idx(o[1]) != idx(o[2]) and d[idx(o[1])][idx(o[2])] is not None:
+                return True
+        return False
 
     # ---------------------------------------------------------------- implementation
+    def render(self, net, case, trk, t, nid, inv, einv):
+        node = net.NODES[nid(t)]
+        lab = node.poids
+        label = "none" if lab == -1 else nc.tok(Fraction(lab))
+        if trk is None:
+            return {"p": "none", "label": label}
+        path = [inv.get(x, repr(x)) for x in trk.path]
+        xy = [[nc.tok(Fraction(o.position.getX())), nc.tok(Fraction(o.position.getY()))] for o in trk]
+        # the edges recorded by the forward pass (node.antecedent_edge), read along the returned path
+        used = []
+        for _ in range(len(path) - 1):
+            if node.antecedent == "":
+                break
+            used.append(einv.get(node.antecedent_edge, repr(node.antecedent_edge)))
+            node = node.antecedent
+        return {"p": {"path": path, "xy": xy, "edges": used[::-1], "af": list(trk.getListAnalyticalFeatures())}, "label": label}
+
     def impl(self, case):
         n = case["n"]
-        cut = case.get("cut", "none")
-        kw = {} if cut == "none" else {"cut": nc.pynum(cut)}
-        res = []
-        with nc.time_limit(3 if n <= 4 else 20):
-            net = nc.build_network(self.mods, case, with_geom=True)
-            for s in range(n):
-                for t in range(n):
-                    trk = net.shortest_path(s, t, **kw)
-                    if trk is None:
-                        res.append("none")
+        Network, Node, Edge, Track, Obs, ENUCoords, ObsTime = self.mods
+        ops = ops_of(case)
+        out = []
+        with nc.time_limit(3 if n <= 4 and len(ops) <= 20 else 20):
+            net, nid, eid, mk = build_net(self.mods, case)
+            inv = {nid(v): v for v in range(n)}
+            einv = {eid(e[0]): e[0] for e in nc.expand(case)}
+            od = {}
+
+            def arg(a):
+                if a == "-":
+                    return None
+                if a[0] == "o":
+                    return net.NODES[nid(int(a[1:]))]
+                if a[0] == "f":
+                    return mk(int(a[1:]))
+                return nid(int(a))
+
+            for op in ops:
+                kind = op[0]
+                if kind == "B":
+                    try:
+                        trk = net.run_routing_backward(arg(op[1]))
+                    except AttributeError:
+                        out.append({"op": "B", "err": "attr"})
                         continue
-                    path = list(trk.path)
-                    xy = [[nc.tok(Fraction(o.position.getX())), nc.tok(Fraction(o.position.getY()))] for o in trk]
-                    # the edges recorded by the forward pass (node.antecedent_edge), read along the returned path
-                    used = []
-                    node = net.NODES[t]
-                    for _ in range(len(path) - 1):
-                        if node.antecedent == "":
-                            break
-                        used.append(node.antecedent_edge)
-                        node = node.antecedent
-                    res.append({"path": path, "xy": xy, "edges": used[::-1]})
-        return {"res": res}
+                    out.append(dict(self.render(net, case, trk, idx(op[1]), nid, inv, einv), op="B"))
+                    continue
+                kw = {}
+                if op[3] != "none":
+                    kw["cut"] = nc.pynum(op[3])
+                if op[4]:
+                    kw["output_dict"] = od
+                if kind == "P":
+                    trk = net.shortest_path(arg(op[1]), arg(op[2]), **kw)
+                    out.append(dict(self.render(net, case, trk, idx(op[2]), nid, inv, einv), op="P"))
+                elif kind == "D":
+                    v = net.shortest_distance(arg(op[1]), arg(op[2]), **kw)
+                    if op[2] == "-":
+                        out.append({"op": "D", "vals": ["none" if x >= 1e299 else nc.tok(Fraction(x)) for x in v]})
+                    else:
+                        out.append({"op": "D", "val": "none" if v == -1 else nc.tok(Fraction(v))})
+                else:
+                    net.run_routing_forward(arg(op[1]), arg(op[2]), **kw)
+                    out.append({"op": "F"})
+            dct = sorted([inv.get(k[0], -1), inv.get(k[1], -1), nc.tok(Fraction(v))] for k, v in od.items())
+        return {"ops": out, "dict": dct}
 
     # ---------------------------------------------------------------- model
     def requests(self, case):
@@ -146,63 +455,108 @@ class P(Prop):
         flat = lambda pts: ",".join("%d,%d" % (x, y) for (x, y) in pts) if pts else "e"
         pos = ";".join(flat([p]) for p in case["pos"]) if case["pos"] else "_"
         lines = ";".join(flat(l) for l in case["lines"]) if case["lines"] else "_"
-        return ["C07.paths %d %s %s %s %s" % (case["n"], nc.edges_token(edges), pos, lines, case.get("cut", "none"))]
+        a = lambda x: x.replace("f", "o")
+        ops = []
+        for o in ops_of(case):
+            if o[0] == "B":
+                ops.append("B:%s" % a(o[1]))
+            else:
+                ops.append("%s:%s:%s:%s:%d" % (o[0], a(o[1]), a(o[2]), o[3], 1 if o[4] else 0))
+        return ["C07.session %d %s %s %s %s %d %s" % (case["n"], ",".join(str(v) for v in eff_order(case)), nc.edges_token(edges), pos, lines,
+                                                     1 if case.get("af") else 0, ";".join(ops) if ops else "_")]
 
     def decode(self, case, replies):
         r = replies[0]
         if r == "bad-request":
             raise ValueError("bad-request")
+        outs, dct = r.split("#")
+        ops = ops_of(case)
+        items = [] if outs == "_" else outs.split("|")
+        if len(items) != len(ops):
+            raise ValueError("%d outputs for %d ops" % (len(items), len(ops)))
         res = []
-        for item in ([] if r == "_" else r.split("|")):
-            if item in ("none", "diverge"):
-                res.append(item)
-                continue
-            nodes, pts = item.split(":")
-            p = [] if pts == "_" else pts.split(",")
-            res.append({"path": [int(x) for x in nodes.split(",")], "xy": [[p[i], p[i + 1]] for i in range(0, len(p), 2)]})
-        return {"res": res}
+        for op, item in zip(ops, items):
+            if item == "attr":
+                res.append({"op": "B", "err": "attr"})
+            elif item == "ok":
+                res.append({"op": "F"})
+            elif item.startswith("d="):
+                res.append({"op": "D", "val": item[2:]})
+            elif item.startswith("l="):
+                res.append({"op": "D", "vals": [] if item[2:] == "_" else item[2:].split(",")})
+            else:
+                p, label = item.split("@")
+                if p in ("none", "diverge", "features"):
+                    res.append({"op": op[0], "p": p, "label": label})
+                else:
+                    nodes, pts = p.split(":")
+                    q = [] if pts == "_" else pts.split(",")
+                    res.append({"op": op[0], "label": label,
+                                "p": {"path": [int(x) for x in nodes.split(",")], "xy": [[q[i], q[i + 1]] for i in range(0, len(q), 2)]}})
+        entries = [] if dct == "_" else [e.split(",") for e in dct.split(";")]
+        return {"ops": res, "dict": sorted([int(e[0]), int(e[1]), e[2]] for e in entries)}
 
     def compare(self, case, impl_out, model_out):
         if "err" in impl_out:
             return None if impl_out["err"] == "err:Skipped" else "implementation failed: %s" % impl_out["err"]
-        n = case["n"]
-        a, b = impl_out["res"], model_out["res"]
+        a, b = impl_out["ops"], model_out["ops"]
         if len(a) != len(b):
             return "impl has %d results, model %d" % (len(a), len(b))
+        n = case["n"]
+        ops = ops_of(case)
         edges = d = None
-        for k, (x, y) in enumerate(zip(a, b)):
-            s, t = divmod(k, n)
-            if isinstance(x, dict) and isinstance(y, dict) and x["path"] == y["path"] and x["xy"] == y["xy"]:
+        last = None
+        for k, (op, x, y) in enumerate(zip(ops, a, b)):
+            if op[0] != "B":
+                last = (idx(op[1]), None if op[2] == "-" else idx(op[2]), cutval(op[3]))
+            if "p" not in x or "p" not in y:
+                if x != y:
+                    return "op %d %s: impl=%s model=%s" % (k, op, x, y)
                 continue
-            if x == y:
+            px, py = x["p"], y["p"]
+            if isinstance(px, dict) and px.get("af"):
+                return "op %d %s: the returned track has analytical features %s, the model's has none" % (k, op, px["af"])
+            same = (px == py) or (isinstance(px, dict) and isinstance(py, dict) and px["path"] == py["path"] and px["xy"] == py["xy"])
+            if same and x["label"] == y["label"]:
                 continue
-            # a different answer is legal only where the property leaves freedom (several optimal walks):
-            # there the implementation's path is validated by the oracle instead
+            # a different answer is legal only where the property leaves freedom (several optimal walks, or a search
+            # that was stopped before the node was settled): there the implementation's path is validated by the oracle
             if edges is None:
                 edges = nc.expand(case)
                 d = nc.floyd_warshall(n, edges)
-            if isinstance(x, dict) and isinstance(y, dict) and self.check_pair(case, edges, d, s, t, x) is None \
-                    and optimal_walks(n, edges, d, s, t) > 1:
-                continue
-            return "pair (%d,%d): impl=%s model=%s" % (s, t, x, y)
+            s0, t0, c0 = last if last else (None, None, None)
+            t = idx(op[2]) if op[0] == "P" else idx(op[1])
+            if last and isinstance(px, dict) and isinstance(py, dict) and s0 != t and d[s0][t] is not None:
+                complete = (t0 is None or t0 == t) and within(d[s0][t], c0)
+                msg, total = self.check_route(case, edges, s0, t, px)
+                if msg is None and x["label"] == nc.tok(total):
+                    if not complete:
+                        continue
+                    if total == d[s0][t] and x["label"] == y["label"] and optimal_walks(n, edges, d, s0, t) > 1:
+                        continue
+            return "op %d %s: impl=%s model=%s" % (k, op, x, y)
+        if impl_out["dict"] != model_out["dict"]:
+            return "output_dict: impl=%s model=%s" % (impl_out["dict"], model_out["dict"])
         return None
 
     # ---------------------------------------------------------------- oracle
-    def check_pair(self, case, edges, d, s, t, x):
-        """x = {"path", "xy", "edges"} returned for (s,t), reachable: walk, optimal, geometry chained"""
+    def check_route(self, case, edges, s, t, x):
+        """x = {"path", "xy", "edges"} returned for a search from s and the target t: (what is wrong | None, total weight).
+        A real walk from s to t along the recorded edges, each traversable in that direction; geometry = the position of s
+        followed by those edges' polylines, each oriented along the travel and without its first vertex."""
         byid = {e[0]: e for e in edges}
         lines = {e[0]: case["lines"][k] for k, e in enumerate(edges)}
         pos = case["pos"]
         path, used = x["path"], x["edges"]
         if not path or path[0] != s or path[-1] != t:
-            return "path %s does not go from %d to %d" % (path, s, t)
+            return "path %s does not go from %d to %d" % (path, s, t), None
         if len(used) != len(path) - 1:
-            return "path %s has %d recorded edges" % (path, len(used))
+            return "path %s has %d recorded edges" % (path, len(used)), None
         total = 0
         options = []     # per step, the polyline(s) oriented along the direction of travel
         for i, eid in enumerate(used):
             if eid not in byid:
-                return "recorded edge %r does not exist" % (eid,)
+                return "recorded edge %r does not exist" % (eid,), None
             _, es, et, w, o = byid[eid]
             a, b = path[i], path[i + 1]
             opts = []
@@ -211,11 +565,11 @@ class P(Prop):
             if o <= 0 and et == a and es == b:
                 opts.append(lines[eid][::-1])
             if not opts:
-                return "step %d->%d of path %s: edge %d (source %d, target %d, orientation %d) cannot be traversed in that direction" % (a, b, path, eid, es, et, o)
+                return "step %s->%s of path %s: edge %d (source %d, target %d, orientation %d) cannot be traversed in that direction" % (a, b, path, eid, es, et, o), None
             total += nc.num(w)
             options.append(opts)
-        if total != d[s][t]:
-            return "path %s via edges %s weighs %s, the shortest distance is %s" % (path, used, nc.tok(total), nc.tok(d[s][t]))
+        if case.get("loose"):
+            return None, total      # the polylines do not join the node positions: no chain to speak of (compared with the model only)
         got = [[Fraction(px), Fraction(py)] for px, py in x["xy"]]
         ok = False
         for choice in itertools.islice(itertools.product(*options), 64):
@@ -227,9 +581,50 @@ class P(Prop):
                 break
         if not ok:
             return "geometry %s of path %s via edges %s is not the chain of the edges' polylines along the direction of travel (expected %s)" % (
-                x["xy"], path, used, want)
+                x["xy"], path, used, want), None
         if got[0] != list(pos[s]) or got[-1] != list(pos[t]):
-            return "geometry %s does not start at the source's position %s and end at the target's %s" % (x["xy"], pos[s], pos[t])
+            return "geometry %s does not start at the source's position %s and end at the target's %s" % (x["xy"], pos[s], pos[t]), None
+        return None, total
+
+    def check_pair(self, case, edges, d, s, t, x):
+        """x returned for (s,t), reachable, search complete for t: walk, optimal, geometry chained"""
+        msg, total = self.check_route(case, edges, s, t, x)
+        if msg:
+            return msg
+        if total != d[s][t]:
+            return "path %s via edges %s weighs %s, the shortest distance is %s" % (x["path"], x["edges"], nc.tok(total), nc.tok(d[s][t]))
+        return None
+
+    def check_result(self, case, edges, d, s, t, c, complete, o, what):
+        """the result `o` of a path request to t after a search from s with cut-off c; complete: the search was not
+        stopped at another target (it ran to t, or to exhaustion / the cut-off)"""
+        x = o["p"]
+        if s == t:
+            return None           # the statement is about targets other than the source
+        if d[s][t] is None:
+            if x != "none":
+                return "%s returns %s but no permitted walk exists" % (what, x)
+            return None
+        if complete and within(d[s][t], c):
+            if not isinstance(x, dict):
+                return "%s returns %s but the target is reachable at distance %s" % (what, x, nc.tok(d[s][t]))
+            m = self.check_pair(case, edges, d, s, t, x)
+            if m:
+                return "%s: %s" % (what, m)
+            if o["label"] != nc.tok(d[s][t]):
+                return "%s: the weights of the path sum to %s but the distance reported (NODES[target].poids) is %s" % (what, nc.tok(d[s][t]), o["label"])
+            return None
+        # cut-off below the true distance, or a backward pass after a search stopped at another target: the statement does
+        # not require a path, nor an optimal one; but "a returned path is a real route": a walk, chained, its weights
+        # summing to the value reported for the target
+        if isinstance(x, dict):
+            m, total = self.check_route(case, edges, s, t, x)
+            if m:
+                return "%s: %s" % (what, m)
+            if o["label"] != nc.tok(total):
+                return "%s: the weights of the path sum to %s but the value reported for the target (NODES[target].poids) is %s" % (what, nc.tok(total), o["label"])
+        elif x != "none":
+            return "%s returns %s" % (what, x)
         return None
 
     def spec(self, case, out):
@@ -240,27 +635,56 @@ class P(Prop):
         n = case["n"]
         edges = nc.expand(case)
         d = nc.floyd_warshall(n, edges)
-        c = cutval(case.get("cut", "none"))
-        if len(out["res"]) != n * n:
-            return "%d results for %d pairs" % (len(out["res"]), n * n)
-        for k, x in enumerate(out["res"]):
-            s, t = divmod(k, n)
-            if s == t:
-                continue          # the statement is about targets other than the source
-            if d[s][t] is None:
-                if x != "none":
-                    return "shortest_path(%d,%d) returns %s but no permitted walk exists" % (s, t, x)
-            elif within(d[s][t], c):
-                if not isinstance(x, dict):
-                    return "shortest_path(%d,%d) returns %s but the target is reachable at distance %s" % (s, t, x, nc.tok(d[s][t]))
-                m = self.check_pair(case, edges, d, s, t, x)
+        ops = ops_of(case)
+        if len(out["ops"]) != len(ops):
+            return "%d results for %d calls" % (len(out["ops"]), len(ops))
+        last = None
+        for k, (op, o) in enumerate(zip(ops, out["ops"])):
+            pre = "call %d: " % k if ("ops" in case or case.get("seq")) else ""
+            if op[0] == "B":
+                if last is None:
+                    continue      # backward pass before any search: nothing is stated
+                if "err" in o:
+                    return "%srun_routing_backward(%s) after a search raised %s" % (pre, op[1], o["err"])
+                s0, t0, c0 = last
+                t = idx(op[1])
+                m = self.check_result(case, edges, d, s0, t, c0, t0 is None or t0 == t, o,
+                                      "%srun_routing_backward(%d) after the search from %d (target %s, cut %s)" % (pre, t, s0, t0, "none" if c0 is None else nc.tok(c0)))
                 if m:
-                    return "shortest_path(%d,%d): %s" % (s, t, m)
+                    return m
+                continue
+            s, t, c = idx(op[1]), (None if op[2] == "-" else idx(op[2])), cutval(op[3])
+            last = (s, t, c)
+            if op[0] == "P":
+                m = self.check_result(case, edges, d, s, t, c, True, o,
+                                      "%sshortest_path(%d,%d%s)" % (pre, s, t, "" if c is None else ",cut=%s" % nc.tok(c)))
+                if m:
+                    return m
         return None
 
     # ---------------------------------------------------------------- shrinking / search
     def shrink(self, case):
+        ops = case.get("ops")
+        if ops is not None:
+            for k in range(len(ops)):
+                yield dict(case, ops=ops[:k] + ops[k + 1:])
+            for k, o in enumerate(ops):
+                simp = [o[0]] + [a.lstrip("of") if isinstance(a, str) and a[:1] in "of" else a for a in o[1:]]
+                if o[0] != "B" and simp[4]:
+                    simp[4] = 0
+                if simp != o:
+                    yield dict(case, ops=ops[:k] + [simp] + ops[k + 1:])
+        for key in ("ids", "build", "af"):
+            if key in case:
+                yield {k: v for k, v in case.items() if k != key}
+        if case.get("seq") == "euler":
+            c = {k: v for k, v in case.items() if k != "seq"}
+            yield c
+            c = dict(c, ops=ops_of(case))
+            yield c
         for c in nc.shrink_graph(case):
+            if ops is not None and c["n"] != case["n"]:
+                continue          # the calls name the nodes
             yield c
         if "edges" in case:
             for k, l in enumerate(case["lines"]):
